@@ -66,7 +66,12 @@ def transform_run(ctx, pool, name, *a, **kw):
         ctx.sample({'run': name, 'vector': next(r.iter_emitted())})
     n = 0
     by = {}
-    for cnt, nev, nt, bad in pool.imap_unordered(T.replay_chunk, r.iter_lines(200)):
+    def jobs():
+        base = 0
+        for chunk in r.iter_lines(200):
+            yield (base, chunk)
+            base += len(chunk)
+    for cnt, nev, nt, bad in pool.imap_unordered(T.replay_chunk, jobs()):
         n += cnt
         ctx.count(nev)
         ctx.nontrivial_extra += nt
